@@ -110,10 +110,10 @@ def handleL2 (j : Json) : Except String Json := do
        ("agree", Json.bool aff.isEmpty),
        ("affects", Json.arr (aff.map Json.str).toArray),
        ("c01", Json.bool (holdsC01e2e q segs o && holdsC01exact segs o)),
-       ("c03", Json.bool (holdsC03 segs o && holdsC03vals C tt segs args o && holdsC03present args o)),
+       ("c03", Json.bool ((!tagsClean tt || holdsC03 segs o) && holdsC03vals C tt segs args o && holdsC03present args o)),
        ("c02", Json.bool (literalsVerbatim segs o)),
        ("c04", Json.bool (holdsC04rej m o && literalsVerbatim segs o)),
-       ("c05", Json.bool (holdsC05 segs o)),
+       ("c05", Json.bool (!tagsClean tt || holdsC05 segs o)),
        ("c07", Json.bool (holdsC07 m o)),
        ("c08", Json.bool (holdsC08 m o))])
 
